@@ -5,10 +5,10 @@ Extraction Language OCaml.
 Extraction "C07_model.ml" wire_anchor
   ty_id ty_of_id alt_ty index_of select conv moved_val rel_z
   dispatch visit_vals vstep vrun var_default get_if holds_alternative visit_types var_rel
-  opt_empty has_value opt_deref ostep orun opt_value_or opt_and_then opt_or_else opt_rel opt_rel_null opt_rel_val
-  exp_has_value exp_deref exp_error estep erun exp_value_or exp_and_then exp_or_else
+  opt_empty has_value opt_deref ostep orun opt_value_or opt_and_then opt_or_else opt_and_then_q opt_or_else_q opt_value_or_q opt_take_q opt_rel opt_rel_null opt_rel_val
+  exp_has_value exp_deref exp_error estep erun exp_value_or exp_and_then exp_or_else exp_and_then_q exp_or_else_q exp_value_or_q exp_take_q exp_take_error_q
   rstep rrun ref_deref
   sv_step sv_run sv_get_if sv_holds sv_visit sv_rel sv_convert
-  so_step so_run so_value_or so_and_then so_or_else so_rel so_rel_null so_rel_val
-  se_step se_run se_value_or se_and_then se_or_else
-  sr_step sr_run ustep urun unex_eq su_step su_run.
+  so_step so_run so_value_or so_and_then so_or_else so_and_then_q so_or_else_q so_value_or_q so_take_q so_rel so_rel_null so_rel_val
+  se_step se_run se_value_or se_and_then se_or_else se_and_then_q se_or_else_q se_value_or_q se_take_q se_take_error_q
+  sr_step sr_run sr_deref ustep urun unex_eq su_step su_run.
